@@ -19,7 +19,8 @@ type Input struct {
 	Seed    uint64   `json:"seed"`
 	Shard   int      `json:"shard"`
 	Shards  int      `json:"shards"`
-	N       int      `json:"n"`        // cases for this shard
+	N       int      `json:"n"`        // cases for this shard (upper bound)
+	Total   int      `json:"total"`    // global number of cases: case indexes ≥ Total are not run
 	BudgetS int      `json:"budget_s"` // wall-clock cap
 	Known   []string `json:"known"`    // signatures of known findings (suppressed, counted)
 	Replay  *Case    `json:"replay,omitempty"`
@@ -349,6 +350,9 @@ func Main(all []Registration) {
 			break
 		}
 		idx := in.Shard + i*in.Shards // global case number: independent of the shard count
+		if in.Total > 0 && idx >= in.Total {
+			break
+		}
 		r := NewRng(in.Seed ^ (uint64(idx)+1)*0xD6E8FEB86659FD93)
 		cs := GenCase(in.Prop, usable, r)
 		if cs == nil {
